@@ -62,9 +62,13 @@ let show_files (sort : bool) (fl : (n list * n list) list) : string =
 let show_textures (x : textures) : string =
   let one (t : TexCommon.texture) =
     shex t.TexCommon.x_name ^ "," ^ dec_of_n t.TexCommon.x_w ^ "," ^ dec_of_n t.TexCommon.x_h ^ "," ^ show_b t.TexCommon.x_px in
+  let keyed (k, (t : TexCommon.texture)) =
+    (* the KEY is printed as the name (it is the texture's own name in the model: tex_map) *)
+    (if k = t.TexCommon.x_name then shex k else shex k ^ "!" ^ shex t.TexCommon.x_name)
+    ^ "," ^ dec_of_n t.TexCommon.x_w ^ "," ^ dec_of_n t.TexCommon.x_h ^ "," ^ show_b t.TexCommon.x_px in
   let es = (match x with
       | TexVec l -> List.map one l
-      | TexMap m -> List.sort compare (List.map (fun (_, t) -> one t) m)) in
+      | TexMap m -> List.sort compare (List.map keyed m)) in
   "ok " ^ string_of_int (List.length es) ^ " [" ^ String.concat " " es ^ "]"
 
 let show_tobs (which : string) (o : tobs) : string =
